@@ -562,7 +562,7 @@ def run_shard(spec, seed, tier):
         for name in pp.EXAMPLES:
             idx = pp.Index(pp.load_example(name))
             pts_by_db[name], _ = pp.matrix(name, idx, 2)
-        n = 4 if tier == "quick" else 40
+        n = 4 if tier == "quick" else 30
 
         @st.composite
         def strat(draw):
